@@ -762,3 +762,161 @@ Proof.
       destruct (run_prog e ESudo c None [] None 0 true p s) as [tr r]. exact H.
     + intros pi [].
 Qed.
+
+(* ---------- of the two reply handlers of a sub-message at most one is entered (C03 clause 8) ---------- *)
+Definition rpairs_out (o : output) : list (N * N) := match o with OFail => [] | OResp _ _ _ sbs => rpairs_subs sbs end.
+Definition pairs_within (P : list (N * N)) (L : list N) : Prop := forall a b, In (a, b) P -> In a L /\ In b L.
+
+Lemma prog_node_in p : In (prog_node p) (nodes_prog p).
+Proof. destruct p as [n a o]. cbn. left. reflexivity. Qed.
+
+Lemma pairs_within_app P1 P2 L1 L2 : pairs_within P1 L1 -> pairs_within P2 L2 -> pairs_within (P1 ++ P2) (L1 ++ L2).
+Proof.
+  intros H1 H2 a b Hi. apply in_app_or in Hi as [Hi|Hi]; [destruct (H1 a b Hi)|destruct (H2 a b Hi)]; split; apply in_or_app; auto.
+Qed.
+
+Lemma rpairs_within :
+  (forall m, pairs_within (rpairs_msg m) (nodes_msg m)) /\
+  (forall p, pairs_within (rpairs_prog p) (nodes_prog p)) /\
+  (forall o, pairs_within (rpairs_out o) (nodes_out o)) /\
+  (forall l, pairs_within (rpairs_subs l) (nodes_subs l)) /\
+  (forall sb, pairs_within (rpairs_sub sb) (nodes_sub sb)).
+Proof.
+  apply exec_mutind; try (intros; intros x y Hxy; exact (match Hxy with end));
+    try (intros; cbn [rpairs_msg nodes_msg rpairs_out nodes_out]; assumption).
+  - (* Prog *) intros node acts o IH a b Hi. cbn [rpairs_prog] in Hi. fold (rpairs_out o) in Hi. cbn [nodes_prog]. fold (nodes_out o).
+    destruct (IH a b Hi). split; right; assumption.
+  - (* SCons *) intros sb IH r IHr. cbn [rpairs_subs nodes_subs]. apply pairs_within_app; assumption.
+  - (* Sub *) intros id payload ro m IHm on_ok IHok on_err IHerr a b Hi. cbn [rpairs_sub nodes_sub] in *. destruct Hi as [E|Hi].
+    + injection E as <- <-. split; apply in_or_app; right; apply in_or_app; [left|right]; apply prog_node_in.
+    + exact (pairs_within_app _ _ _ _ IHm (pairs_within_app _ _ _ _ IHok IHerr) a b Hi).
+Qed.
+
+Definition once (P : list (N * N)) (tr : trace) : Prop :=
+  forall a b, In (a, b) P -> ~ (In a (call_nodes tr) /\ In b (call_nodes tr)).
+
+Lemma once_app P1 P2 tr : once P1 tr -> once P2 tr -> once (P1 ++ P2) tr.
+Proof. intros H1 H2 a b Hi. apply in_app_or in Hi as [Hi|Hi]; [exact (H1 a b Hi)|exact (H2 a b Hi)]. Qed.
+Lemma once_nil tr : once [] tr. Proof. intros a b []. Qed.
+Lemma once_left P L1 L2 t1 t2 : pairs_within P L1 -> (forall x, In x L1 -> In x L2 -> False) ->
+  subl (call_nodes t2) L2 -> once P t1 -> once P (t1 ++ t2).
+Proof.
+  intros W D S H a b Hi [Ha Hb]. destruct (W a b Hi) as [Wa Wb]. apply (H a b Hi). rewrite call_nodes_app, in_app_iff in Ha, Hb. split.
+  - destruct Ha as [Ha|Ha]; [exact Ha|]. exfalso. exact (D a Wa (subl_in _ _ _ S Ha)).
+  - destruct Hb as [Hb|Hb]; [exact Hb|]. exfalso. exact (D b Wb (subl_in _ _ _ S Hb)).
+Qed.
+Lemma once_right P L1 L2 t1 t2 : pairs_within P L2 -> (forall x, In x L1 -> In x L2 -> False) ->
+  subl (call_nodes t1) L1 -> once P t2 -> once P (t1 ++ t2).
+Proof.
+  intros W D S H a b Hi [Ha Hb]. destruct (W a b Hi) as [Wa Wb]. apply (H a b Hi). rewrite call_nodes_app, in_app_iff in Ha, Hb. split.
+  - destruct Ha as [Ha|Ha]; [|exact Ha]. exfalso. exact (D a (subl_in _ _ _ S Ha) Wa).
+  - destruct Hb as [Hb|Hb]; [|exact Hb]. exfalso. exact (D b (subl_in _ _ _ S Hb) Wb).
+Qed.
+Lemma once_none P L L' tr : pairs_within P L -> (forall x, In x L -> In x L' -> False) -> subl (call_nodes tr) L' -> once P tr.
+Proof. intros W D S a b Hi [Ha _]. exact (D a (proj1 (W a b Hi)) (subl_in _ _ _ S Ha)). Qed.
+
+Lemma exec_once e :
+  (forall m sender s, NoDup (nodes_msg m) -> once (rpairs_msg m) (trc (run_msg e sender m s))) /\
+  (forall p entry c sender funds rep cid rok s, NoDup (nodes_prog p) ->
+      once (rpairs_prog p) (trc (run_prog e entry c sender funds rep cid rok p s))) /\
+  (forall o c data s, match o with OFail => True | OResp _ _ _ sbs =>
+      NoDup (nodes_subs sbs) -> once (rpairs_subs sbs) (trc (process_subs e c sbs data s)) end) /\
+  (forall l c data s, NoDup (nodes_subs l) -> once (rpairs_subs l) (trc (process_subs e c l data s))) /\
+  (forall sb c s, NoDup (nodes_sub sb) -> once (rpairs_sub sb) (trc (run_sub e c sb s))).
+Proof.
+  destruct (exec_call_nodes e) as (Cm & Cp & _ & Cs & Cb).
+  destruct rpairs_within as (Wm & Wp & _ & Ws & Wb).
+  assert (Hleaf : forall m sender s, msg_prog m = None -> once (rpairs_msg m) (trc (run_msg e sender m s))).
+  { intros m sender s H. destruct m; cbn in H; try discriminate; apply once_nil. }
+  assert (Hcall : forall m p, msg_prog m = Some p ->
+            (forall entry c sender funds rep cid rok s, NoDup (nodes_prog p) ->
+                once (rpairs_prog p) (trc (run_prog e entry c sender funds rep cid rok p s))) ->
+            forall sender s, NoDup (nodes_msg m) -> once (rpairs_msg m) (trc (run_msg e sender m s))).
+  { intros m p Hp IH sender s Hn. rewrite (proj1 (proj2 (flat_msg_prog m p None Hp))) in Hn.
+    assert (Er : rpairs_msg m = rpairs_prog p) by (destruct m; cbn in Hp; try discriminate; injection Hp as ->; reflexivity).
+    rewrite Er. destruct (run_msg_cases e sender m s p Hp) as [[-> _]|(c & s1 & _ & _ & _ & _ & ->)]; [intros a b _ [[] _]|].
+    specialize (IH (msg_entry m) c (msg_sender m sender) (msg_funds m) None (msg_cid m) true s1 Hn).
+    destruct (run_prog e (msg_entry m) c (msg_sender m sender) (msg_funds m) None (msg_cid m) true p s1) as [tr r]. exact IH. }
+  apply exec_mutind; try (intros; exact I); try (intros; apply Hleaf; reflexivity);
+    try (intros; eapply Hcall; [reflexivity|assumption|assumption]).
+  - (* Prog *) intros node acts out IH entry c sender funds rep cid rok s Hn.
+    cbn [nodes_prog] in Hn. fold (nodes_out out) in Hn. inversion Hn as [|x l Hnot Hn']; subst.
+    cbn [rpairs_prog]. fold (rpairs_out out).
+    destruct (run_prog_cases e entry c sender funds rep cid rok node acts out s)
+      as [[_ ->]|[(co & _ & _ & ->)|(co & attrs & events & data & sbs & _ & -> & _ & ->)]].
+    + intros a b _ [[] _].
+    + intros a b Hi [Ha _]. cbn [trc fst call_nodes hdr call_node] in Ha. rewrite body_tr_no_calls in Ha.
+      destruct Ha as [<-|[]]. apply Hnot. exact (proj1 (proj1 (proj2 (proj2 rpairs_within)) out node b Hi)).
+    + specialize (IH c data (body_st e s node c acts) Hn').
+      destruct (process_subs e c sbs data (body_st e s node c acts)) as [tr_s r]. cbn [trc fst rpairs_out nodes_out] in *.
+      intros a b Hi [Ha Hb]. cbn [call_nodes hdr call_node] in Ha, Hb. rewrite call_nodes_app, body_tr_no_calls in Ha, Hb.
+      cbn [app] in Ha, Hb. destruct (Ws sbs a b Hi) as [Wa Wb']. apply (IH a b Hi). split.
+      * destruct Ha as [<-|Ha]; [contradiction|exact Ha].
+      * destruct Hb as [<-|Hb]; [contradiction|exact Hb].
+  - (* OResp *) intros attrs events data sbs IH c data0 s. apply IH.
+  - (* SNil *) intros c data s _. apply once_nil.
+  - (* SCons *) intros sb IHsb r IHr c data s Hn. cbn [nodes_subs rpairs_subs] in *.
+    destruct (NoDup_app_inv _ _ Hn) as (Hn1 & Hn2 & Hd). rewrite process_subs_trace. apply once_app.
+    + eapply once_left; [apply Wb|exact Hd| |apply IHsb, Hn1].
+      destruct (outc (run_sub e c sb s)) as [[[ev1 d1] s1]| |]; [apply Cs|apply subl_nil_l|apply subl_nil_l].
+    + eapply once_right; [apply Ws|exact Hd|apply Cb|].
+      destruct (outc (run_sub e c sb s)) as [[[ev1 d1] s1]| |]; [apply IHr, Hn2|intros a b _ [[] _]|intros a b _ [[] _]].
+  - (* Sub *) intros id payload ro m IHm on_ok IHok on_err IHerr c s Hn. cbn [nodes_sub rpairs_sub] in *.
+    destruct (NoDup_app_inv _ _ Hn) as (Hn1 & Hn23 & Hd1). destruct (NoDup_app_inv _ _ Hn23) as (Hn2 & Hn3 & Hd2).
+    assert (D12 : forall x, In x (nodes_msg m) -> In x (nodes_prog on_ok) -> False).
+    { intros x H1 H2. apply (Hd1 x H1). apply in_or_app. left. exact H2. }
+    assert (D13 : forall x, In x (nodes_msg m) -> In x (nodes_prog on_err) -> False).
+    { intros x H1 H2. apply (Hd1 x H1). apply in_or_app. right. exact H2. }
+    rewrite run_sub_trace. unfold reply_run.
+    match goal with |- once _ (_ ++ ?X) => set (R := X) end.
+    (* the reply part of the log calls nodes of on_ok only, or of on_err only *)
+    assert (HR : (subl (call_nodes R) (nodes_prog on_ok) /\ once (rpairs_prog on_ok) R) \/
+                 (subl (call_nodes R) (nodes_prog on_err) /\ once (rpairs_prog on_err) R)).
+    { unfold R. destruct (outc (run_msg e c m s)) as [[[ev d] s1]| |].
+      - left. destruct (wants_ok ro); [split; [apply Cp|apply IHok, Hn2]|split; [apply subl_nil_l|intros a b _ [[] _]]].
+      - right. destruct (wants_err ro); [split; [apply Cp|apply IHerr, Hn3]|split; [apply subl_nil_l|intros a b _ [[] _]]].
+      - left. split; [apply subl_nil_l|intros a b _ [[] _]]. }
+    clearbody R. intros a b Hi. destruct Hi as [E|Hi].
+    + injection E as <- <-. intros [Ha Hb]. rewrite call_nodes_app, in_app_iff in Ha, Hb.
+      destruct HR as [[S _]|[S _]].
+      * destruct Hb as [Hb|Hb]; [exact (D13 _ (subl_in _ _ _ (Cm m c s) Hb) (prog_node_in on_err))|].
+        exact (Hd2 _ (subl_in _ _ _ S Hb) (prog_node_in on_err)).
+      * destruct Ha as [Ha|Ha]; [exact (D12 _ (subl_in _ _ _ (Cm m c s) Ha) (prog_node_in on_ok))|].
+        exact (Hd2 _ (prog_node_in on_ok) (subl_in _ _ _ S Ha)).
+    + revert a b Hi. apply once_app; [|apply once_app].
+      * destruct HR as [[S _]|[S _]]; (eapply once_left; [apply Wm| |exact S|apply IHm, Hn1]); [exact D12|exact D13].
+      * eapply once_right; [apply Wp|exact D12|apply Cm|]. destruct HR as [[_ O]|[S _]]; [exact O|].
+        eapply once_none; [apply Wp| |exact S]. exact Hd2.
+      * eapply once_right; [apply Wp|exact D13|apply Cm|]. destruct HR as [[S _]|[_ O]]; [|exact O].
+        eapply once_none; [apply Wp| |exact S]. intros x H1 H2. exact (Hd2 x H2 H1).
+Qed.
+
+Lemma msgs_once e sender : forall ms s, NoDup (flat_map nodes_msg ms) ->
+  once (flat_map rpairs_msg ms) (trc (run_msgs e sender ms s)).
+Proof.
+  induction ms as [|m r IH]; intros s Hn; [apply once_nil|]. rewrite run_msgs_cons. cbn [flat_map] in *.
+  destruct (NoDup_app_inv _ _ Hn) as (Hn1 & Hn2 & Hd).
+  pose proof (proj1 (exec_once e) m sender s Hn1) as H1. pose proof (proj1 (exec_call_nodes e) m sender s) as C1.
+  assert (Wr : pairs_within (flat_map rpairs_msg r) (flat_map nodes_msg r)).
+  { intros a b Hi. apply in_flat_map in Hi as (m' & Hm' & Hi). destruct (proj1 rpairs_within m' a b Hi).
+    split; apply in_flat_map; exists m'; auto. }
+  destruct (run_msg e sender m s) as [tr1 [[rs s1]| |]]; cbn [trc fst] in *.
+  - specialize (IH s1 Hn2). pose proof (msgs_call_nodes e sender r s1) as C2.
+    destruct (run_msgs e sender r s1) as [tr2 r2]. cbn [trc fst] in *. apply once_app.
+    + eapply once_left; [apply (proj1 rpairs_within)|exact Hd|exact C2|exact H1].
+    + eapply once_right; [exact Wr|exact Hd|exact C1|exact IH].
+  - apply once_app; [exact H1|]. eapply once_none; [exact Wr| |exact C1]. intros x H2 H3. exact (Hd x H3 H2).
+  - apply once_app; [exact H1|]. eapply once_none; [exact Wr| |exact C1]. intros x H2 H3. exact (Hd x H3 H2).
+Qed.
+
+Lemma top_once e op s : NoDup (nodes_op op) -> once (rpairs_op op) (top_trace (run_top e op s)).
+Proof.
+  intros Hn. rewrite (proj1 (top_inner e op s)). destruct (op_msgs op) as [[sd ms]|] eqn:E.
+  - destruct (inner_msgs e op s sd ms E) as (-> & Et & _ & _ & En & _). rewrite En in Hn.
+    assert (Er : rpairs_op op = flat_map rpairs_msg ms) by (destruct op; cbn in E; try discriminate; injection E as _ <-; reflexivity).
+    rewrite Er. apply msgs_once, Hn.
+  - destruct op; try discriminate.
+    + cbn [inner nodes_op rpairs_op] in *. pose proof (proj1 (proj2 (exec_once e)) p ESudo c None [] None 0 true s Hn) as H.
+      destruct (run_prog e ESudo c None [] None 0 true p s) as [tr r]. exact H.
+    + apply once_nil.
+Qed.
